@@ -1200,3 +1200,84 @@ SETOF_EQ = Contract(
          'in position order) is an assumed model')
 SETOF_EQ.bounded = 'at most 3 elements on either side (the matching loops are unrolled)'
 CONTRACTS = CONTRACTS + [SETOF_EQ]
+
+
+# ---- isInconsistent (SEQUENCE / SET): the type's own constraints are evaluated on {name: member} of exactly the stored members ----
+# names as tokens: distinct positions have distinct names, and a made-up name is never a declared one (concrete encodings
+# rather than an injectivity axiom: the reachability canaries need satisfiability, which quantified axioms make undecidable)
+def NAME_DECL(k):
+    return 2 * k
+
+
+def NAME_DYN(k):
+    return 2 * k + 1
+
+
+def NAME_INV(i):
+    return i / 2
+
+
+def _name_of(k):
+    return If(N_DECL > 0, NAME_DECL(k), NAME_DYN(k))
+
+
+def _record_self_for_consistency(ex, env):
+    o = _record_self_iterable(ex, env)
+
+    def declared_name(ex2, self, idx):
+        """NamedTypes.getNameByPosition: PyAsn1Error for a position the declaration does not have"""
+        idx = toint(idx)
+        if not ex2.choose(And(idx >= -N_DECL, idx < N_DECL), 'declared-position'):
+            raise _Raise(ExcV('PyAsn1Error'))
+        return NAME_DECL(idx)
+    o.fields['componentType'] = Obj('NamedTypes', {'__class__': {'__name__': 'NamedTypes'}}, {'getNameByPosition': declared_name},
+                                    name='componentType')
+    o.fields['_dynamicNames'] = Obj('DynamicNames', {}, {'getNameByPosition': lambda ex2, self, idx: NAME_DYN(toint(idx))},
+                                    name='_dynamicNames')
+
+    def spec_call(ex2, self, mapping):
+        o.fields['checked'] = mapping
+        if not ex2.choose(z3.Bool('constraints.admit'), 'admitted'):
+            raise _Raise(ExcV('ValueConstraintError'))
+        return None
+    o.fields['subtypeSpec'] = Obj('ConstraintsIntersection', {'__truthy__': z3.Bool('hasConstraints')}, {'__call__': spec_call},
+                                  name='subtypeSpec')
+    o.fields['checked'] = None
+    return o
+
+
+def _named_upto(ex, mapping, upto):
+    """the mapping holds, under its name, every stored member of a position below `upto` -- and nothing else"""
+    if not (isinstance(mapping, Obj) and 'present' in mapping.fields):
+        return False
+    p, ids = mapping.fields['present'], mapping.fields['ids']
+    upto = toint(upto)
+    return And(ForAll([_k], Implies(And(_k >= 0, _k < upto, Select(LID0, _k) != NOV),
+                                    And(Select(p, _name_of(_k)), Select(ids, _name_of(_k)) == Select(LID0, _k)))),
+               ForAll([_i], Implies(Select(p, _i), And(NAME_INV(_i) >= 0, NAME_INV(_i) < upto, _name_of(NAME_INV(_i)) == _i,
+                                                       Select(LID0, NAME_INV(_i)) != NOV,
+                                                       Select(ids, _i) == Select(LID0, NAME_INV(_i))))))
+
+
+RECORD_ISINCONSISTENT = record_contract(
+    id='type.univ::SequenceAndSetBase.isInconsistent', qual='SequenceAndSetBase.isInconsistent', prop='getter',
+    properties=['C14', 'C10'],
+    params=dict(componentType=PConst(None), self=PDerived(_record_self_for_consistency)),
+    globals=dict(GR, sys=_SYS, error={'PyAsn1Error': ClassV('PyAsn1Error'), '__name__': 'error'},
+                 named_upto=FnV(_named_upto, 'named_upto'), hasConstraints=z3.Bool('hasConstraints'),
+                 admitted=z3.Bool('constraints.admit')),
+    # representation invariant: a record with declared components has at most one slot per declaration
+    requires=['N >= 0', 'N == 0 or LLEN0 <= N'],
+    loops={0: Loop(index='i', invariant=['named_upto(mapping, i)'],
+                   havoc_fields=['mapping.present', 'mapping.ids', 'mapping.count'])},
+    ensures=[
+        # declared or not, the record's constraints (SIZE, WITH COMPONENTS) decide -- on its members by name; no lookup error
+        ('consistent-iff-the-constraints-admit-the-members',
+         '(hasConstraints and not schema) ==> ((result is False) == admitted and named_upto(self.checked, LLEN0))'),
+        ('a-schema-object-is-not-a-value-of-a-constrained-type', '(hasConstraints and schema) ==> result is True'),
+        ('nothing-to-check', '(not hasConstraints) ==> result is False'),
+        ('read-only', 'schema or list_unchanged(self._componentValues)')],
+    note='subtypeSpec.__call__ is the constraint contracts\' entry point (assumed model: admits or raises); the name lookups '
+         '(NamedTypes.getNameByPosition, DynamicNames.getNameByPosition) are assumed models with distinct names')
+RECORD_ISINCONSISTENT.empty_dict = empty_dict
+CONTRACTS = CONTRACTS + [RECORD_ISINCONSISTENT]
